@@ -1,7 +1,267 @@
-use serde_json::Value;
+//! Adapters for push rule evaluation (C12) and ruleset edits (C13).
 
-use crate::OpResult;
+use std::collections::BTreeMap;
 
-pub fn dispatch(_op: &str, _cmd: &Value) -> Option<OpResult> {
-    None
+use js_int::{Int, UInt};
+use ruma_common::{
+    power_levels::NotificationPowerLevels,
+    push::{
+        Action, AnyPushRuleRef, FlattenedJson, FlattenedJsonValue, NewConditionalPushRule,
+        NewPatternedPushRule, NewPushRule, NewSimplePushRule, PushCondition,
+        PushConditionPowerLevelsCtx, PushConditionRoomCtx, RuleKind, Ruleset, ScalarJsonValue,
+    },
+    serde::Raw,
+    OwnedRoomId, OwnedUserId, UserId,
+};
+use serde_json::{json, value::RawValue, Value};
+
+use crate::{opt_s, s, OpResult};
+
+fn dump_rule(r: AnyPushRuleRef<'_>) -> Value {
+    json!({
+        "id": r.rule_id(),
+        "enabled": r.enabled(),
+        "default": r.is_server_default(),
+        "actions": serde_json::to_value(r.actions()).unwrap_or(Value::Null),
+    })
+}
+
+fn dump_ruleset(rs: &Ruleset) -> Value {
+    json!({
+        "override": rs.override_.iter().map(|r| dump_rule(AnyPushRuleRef::Override(r))).collect::<Vec<_>>(),
+        "content": rs.content.iter().map(|r| dump_rule(AnyPushRuleRef::Content(r))).collect::<Vec<_>>(),
+        "room": rs.room.iter().map(|r| dump_rule(AnyPushRuleRef::Room(r))).collect::<Vec<_>>(),
+        "sender": rs.sender.iter().map(|r| dump_rule(AnyPushRuleRef::Sender(r))).collect::<Vec<_>>(),
+        "underride": rs.underride.iter().map(|r| dump_rule(AnyPushRuleRef::Underride(r))).collect::<Vec<_>>(),
+        // the public iterator must list the same rules in kind order
+        "iter": rs.iter().map(|r| r.rule_id().to_owned()).collect::<Vec<_>>(),
+    })
+}
+
+fn actions_of(v: Option<&Value>) -> Result<Vec<Action>, String> {
+    match v {
+        Some(v) => serde_json::from_value(v.clone()).map_err(|e| format!("harness: actions: {e}")),
+        None => Ok(vec![Action::Notify]),
+    }
+}
+
+fn new_rule(op: &Value) -> Result<Result<NewPushRule, String>, String> {
+    let kind = s(op, "kind")?;
+    let id = s(op, "rule_id")?;
+    let actions = actions_of(op.get("actions"))?;
+    Ok(Ok(match kind {
+        "override" => {
+            NewPushRule::Override(NewConditionalPushRule::new(id.to_owned(), vec![], actions))
+        }
+        "underride" => {
+            NewPushRule::Underride(NewConditionalPushRule::new(id.to_owned(), vec![], actions))
+        }
+        "content" => NewPushRule::Content(NewPatternedPushRule::new(
+            id.to_owned(),
+            opt_s(op, "pattern").unwrap_or("pat").to_owned(),
+            actions,
+        )),
+        "room" => match OwnedRoomId::try_from(id) {
+            Ok(rid) => NewPushRule::Room(NewSimplePushRule::new(rid, actions)),
+            Err(e) => return Ok(Err(format!("not a room id: {e}"))),
+        },
+        "sender" => match OwnedUserId::try_from(id) {
+            Ok(uid) => NewPushRule::Sender(NewSimplePushRule::new(uid, actions)),
+            Err(e) => return Ok(Err(format!("not a user id: {e}"))),
+        },
+        _ => return Err(format!("harness: kind {kind}")),
+    }))
+}
+
+fn ruleset_ops(cmd: &Value) -> OpResult {
+    let user = <&UserId>::try_from(opt_s(cmd, "user_id").unwrap_or("@user:example.org"))
+        .map_err(|e| format!("harness: user: {e}"))?;
+    let mut rs = match s(cmd, "start")? {
+        "empty" => Ruleset::new(),
+        "default" => Ruleset::server_default(user),
+        "json" => serde_json::from_str::<Ruleset>(s(cmd, "ruleset")?)
+            .map_err(|e| format!("harness: ruleset: {e}"))?,
+        x => return Err(format!("harness: start {x}")),
+    };
+    let only_last = crate::b(cmd, "only_last_dump");
+    let ops = cmd.get("ops").and_then(Value::as_array).ok_or("harness: ops")?;
+    let mut out = vec![];
+    let initial = dump_ruleset(&rs);
+    for (i, op) in ops.iter().enumerate() {
+        let name = s(op, "op")?;
+        let result: Result<(), String> = match name {
+            "insert" => match new_rule(op)? {
+                Ok(rule) => rs
+                    .insert(rule, opt_s(op, "after"), opt_s(op, "before"))
+                    .map_err(|e| e.to_string()),
+                Err(e) => Err(format!("untypable rule id: {e}")),
+            },
+            "remove" => rs
+                .remove(RuleKind::from(s(op, "kind")?), s(op, "rule_id")?)
+                .map_err(|e| e.to_string()),
+            "set_enabled" => rs
+                .set_enabled(RuleKind::from(s(op, "kind")?), s(op, "rule_id")?, crate::b(op, "enabled"))
+                .map_err(|e| e.to_string()),
+            "set_actions" => rs
+                .set_actions(
+                    RuleKind::from(s(op, "kind")?),
+                    s(op, "rule_id")?,
+                    actions_of(op.get("actions"))?,
+                )
+                .map_err(|e| e.to_string()),
+            x => return Err(format!("harness: op {x}")),
+        };
+        let got = s(op, "rule_id").ok().and_then(|id| {
+            rs.get(RuleKind::from(opt_s(op, "kind").unwrap_or("override")), id).map(dump_rule)
+        });
+        let dump = if only_last && i + 1 != ops.len() { Value::Null } else { dump_ruleset(&rs) };
+        out.push(json!({
+            "result": match result { Ok(()) => json!({"ok": null}), Err(e) => json!({"err": e}) },
+            "get": got,
+            "dump": dump,
+        }));
+    }
+    Ok(json!({"initial": initial, "steps": out}))
+}
+
+fn ctx_of(cmd: &Value) -> Result<PushConditionRoomCtx, String> {
+    let c = cmd.get("ctx").ok_or("harness: ctx")?;
+    let power_levels = match c.get("power_levels") {
+        Some(Value::Null) | None => None,
+        Some(p) => {
+            let mut users = BTreeMap::new();
+            if let Some(u) = p.get("users").and_then(Value::as_object) {
+                for (k, v) in u {
+                    users.insert(
+                        OwnedUserId::try_from(k.as_str()).map_err(|e| format!("harness: pl user: {e}"))?,
+                        Int::try_from(v.as_i64().ok_or("harness: pl int")?).map_err(|e| format!("harness: {e}"))?,
+                    );
+                }
+            }
+            let users_default = Int::try_from(p.get("users_default").and_then(Value::as_i64).unwrap_or(0))
+                .map_err(|e| format!("harness: {e}"))?;
+            let mut notifications = NotificationPowerLevels::default();
+            if let Some(r) = p.get("notifications_room").and_then(Value::as_i64) {
+                notifications.room = Int::try_from(r).map_err(|e| format!("harness: {e}"))?;
+            }
+            Some(PushConditionPowerLevelsCtx { users, users_default, notifications })
+        }
+    };
+    Ok(PushConditionRoomCtx {
+        room_id: OwnedRoomId::try_from(s(c, "room_id")?).map_err(|e| format!("harness: room: {e}"))?,
+        member_count: UInt::try_from(c.get("member_count").and_then(Value::as_u64).unwrap_or(2))
+            .map_err(|e| format!("harness: {e}"))?,
+        user_id: OwnedUserId::try_from(s(c, "user_id")?).map_err(|e| format!("harness: user: {e}"))?,
+        user_display_name: s(c, "user_display_name")?.to_owned(),
+        power_levels,
+    })
+}
+
+fn raw_of(text: &str) -> Result<Raw<Value>, String> {
+    let rv: Box<RawValue> =
+        serde_json::from_str(text).map_err(|e| format!("harness: event is not JSON: {e}"))?;
+    Ok(Raw::from_json(rv))
+}
+
+fn dump_flat(v: Option<&FlattenedJsonValue>) -> Value {
+    let scalar = |s: &ScalarJsonValue| match s {
+        ScalarJsonValue::Null => Value::Null,
+        ScalarJsonValue::Bool(b) => json!(b),
+        ScalarJsonValue::Integer(i) => json!(i64::from(*i)),
+        ScalarJsonValue::String(s) => json!(s),
+    };
+    match v {
+        None => json!({"absent": true}),
+        Some(FlattenedJsonValue::Null) => json!({"v": null}),
+        Some(FlattenedJsonValue::Bool(b)) => json!({"v": b}),
+        Some(FlattenedJsonValue::Integer(i)) => json!({"v": i64::from(*i)}),
+        Some(FlattenedJsonValue::String(s)) => json!({"v": s}),
+        Some(FlattenedJsonValue::Array(a)) => json!({"v": a.iter().map(scalar).collect::<Vec<_>>()}),
+        Some(FlattenedJsonValue::EmptyObject) => json!({"empty_object": true}),
+    }
+}
+
+fn matched(r: Option<AnyPushRuleRef<'_>>) -> Value {
+    match r {
+        None => Value::Null,
+        Some(r) => {
+            let kind = match r {
+                AnyPushRuleRef::Override(_) => "override",
+                AnyPushRuleRef::Content(_) => "content",
+                AnyPushRuleRef::Room(_) => "room",
+                AnyPushRuleRef::Sender(_) => "sender",
+                AnyPushRuleRef::Underride(_) => "underride",
+                _ => "unknown",
+            };
+            json!({"kind": kind, "rule_id": r.rule_id()})
+        }
+    }
+}
+
+pub fn dispatch(op: &str, cmd: &Value) -> Option<OpResult> {
+    Some(match op {
+        "ruleset_ops" => ruleset_ops(cmd),
+        "push_eval" => (|| {
+            let rs: Ruleset = serde_json::from_str(s(cmd, "ruleset")?)
+                .map_err(|e| format!("harness: ruleset: {e}"))?;
+            let ctx = ctx_of(cmd)?;
+            let ev = raw_of(s(cmd, "event")?)?;
+            let m = rs.get_match(&ev, &ctx);
+            let actions = rs.get_actions(&ev, &ctx);
+            Ok(json!({
+                "match": matched(m),
+                "actions": serde_json::to_value(actions).unwrap_or(Value::Null),
+            }))
+        })(),
+        "condition_applies" => (|| {
+            let cond: PushCondition = serde_json::from_str(s(cmd, "condition")?)
+                .map_err(|e| format!("harness: condition: {e}"))?;
+            let ctx = ctx_of(cmd)?;
+            let ev = raw_of(s(cmd, "event")?)?;
+            let flat = FlattenedJson::from_raw(&ev);
+            Ok(json!(cond.applies(&flat, &ctx)))
+        })(),
+        "push_match_batch" => (|| {
+            // items: [[pattern, text], ..]; mode: body | key | displayname
+            let mode = s(cmd, "mode")?;
+            let items = cmd.get("items").and_then(Value::as_array).ok_or("harness: items")?;
+            let mut out = Vec::with_capacity(items.len());
+            for it in items {
+                let pattern = it.get(0).and_then(Value::as_str).ok_or("harness: pattern")?;
+                let text = it.get(1).and_then(Value::as_str).ok_or("harness: text")?;
+                let ctx = PushConditionRoomCtx {
+                    room_id: OwnedRoomId::try_from("!r:example.org").unwrap(),
+                    member_count: UInt::from(2u32),
+                    user_id: OwnedUserId::try_from("@me:example.org").unwrap(),
+                    user_display_name: if mode == "displayname" { pattern.to_owned() } else { "me".to_owned() },
+                    power_levels: None,
+                };
+                let ev = json!({"sender": "@other:example.org", "type": "m.room.message",
+                                "content": {"body": text, "k": text}});
+                let raw: Raw<Value> = Raw::from_json(serde_json::value::to_raw_value(&ev).map_err(|e| e.to_string())?);
+                let flat = FlattenedJson::from_raw(&raw);
+                let cond = match mode {
+                    "body" => PushCondition::EventMatch { key: "content.body".into(), pattern: pattern.into() },
+                    "key" => PushCondition::EventMatch { key: "content.k".into(), pattern: pattern.into() },
+                    "displayname" => PushCondition::ContainsDisplayName,
+                    x => return Err(format!("harness: mode {x}")),
+                };
+                out.push(cond.applies(&flat, &ctx));
+            }
+            Ok(json!(out))
+        })(),
+        "flatten" => (|| {
+            let ev = raw_of(s(cmd, "event")?)?;
+            let flat = FlattenedJson::from_raw(&ev);
+            let mut out = serde_json::Map::new();
+            for p in cmd.get("paths").and_then(Value::as_array).ok_or("harness: paths")? {
+                let p = p.as_str().ok_or("harness: path")?;
+                let mut d = dump_flat(flat.get(p));
+                d["get_str"] = json!(flat.get_str(p));
+                out.insert(p.to_owned(), d);
+            }
+            Ok(Value::Object(out))
+        })(),
+        _ => return None,
+    })
 }
